@@ -125,6 +125,9 @@ func (p *P) Run(src *tape.Source, trace bool) *core.Result {
 	} else {
 		p.ownRun(r, src, trace)
 	}
+	for _, site := range pool.DupSites() {
+		r.Fail("pool-never-hands-out-a-live-object", "resident-twice "+site, fmt.Sprintf("at quiescence the pool used at %s holds the same object twice: two later users would share it", site))
+	}
 	for _, rep := range p.race.New() {
 		switch rep.Class {
 		case racelog.Library:
@@ -438,7 +441,7 @@ type taskState struct {
 
 var holdKinds = []ops.Kind{ops.TokenizeDirect, ops.TokenizePooled, ops.Parse, ops.ParseCtx, ops.ParseMultiple, ops.ParseRecovery,
 	ops.ParserParseBytes, ops.ParserParseBytesWithTokens, ops.ParserDialect, ops.TreeSQL, ops.Extract, ops.ScanSQL, ops.ScanTree, ops.Lint, ops.Format, ops.FormatterFormat,
-	ops.ParserStrict, ops.ParserPooledOptions, ops.ParserPositions, ops.Validate, ops.ValidateMultiple, ops.ParserValidate, ops.ParseCtxCancelled}
+	ops.ParserStrict, ops.ParserPooledOptions, ops.ParserPositions, ops.Validate, ops.ValidateMultiple, ops.ParserValidate, ops.ParseCtxCancelled, ops.TransformFromSQL}
 
 func ptrOf(v any) uintptr {
 	rv := reflect.ValueOf(v)
